@@ -34,3 +34,38 @@ func AllOnesRight(n int32) []uint64 {
 	}
 	return words
 }
+
+// StoreWrong writes the last word as mask(n&63): 0 when n%64 == 0, although the
+// slice has (n+63)>>6 words and the last one is then completely used.
+func StoreWrong(n int32) []uint64 {
+	words := make([]uint64, (n+63)>>6)
+	for i := range words {
+		words[i] = ^uint64(0)
+	}
+	if len(words) > 0 {
+		words[len(words)-1] = (uint64(1) << uint(n&63)) - 1
+	}
+	return words
+}
+
+// StoreRight writes the partial last word only when there is one.
+func StoreRight(n int32) []uint64 {
+	words := make([]uint64, (n+63)>>6)
+	for i := range words {
+		words[i] = ^uint64(0)
+	}
+	if n&63 != 0 {
+		words[len(words)-1] = (uint64(1) << uint(n&63)) - 1
+	}
+	return words
+}
+
+// StoreSpare has one word more than full words: mask(0) = 0 is right for it.
+func StoreSpare(n int32) []uint64 {
+	words := make([]uint64, n>>6+1)
+	for i := range words {
+		words[i] = ^uint64(0)
+	}
+	words[len(words)-1] = (uint64(1) << uint(n&63)) - 1
+	return words
+}
